@@ -47,6 +47,25 @@ def run(ck):
     tab = {str(w): [3.0 * (p * 10 ** (6 - w)) / (1 + p * 10 ** (6 - w)) + w * 2.0 / (1 + math.exp(-(math.log10(p) + 6 - w) * 3)) for p in up] for w in uw}
     pd.DataFrame(tab, index=up).to_csv(user_path)
 
+    # a second user kernel with the SAME file name in another directory and other pore widths / pressure range
+    tmpdir2 = tempfile.mkdtemp(prefix="pgv-kernel2-")
+    user_path2 = os.path.join(tmpdir2, "user-kernel.csv")
+    uw2 = [0.6, 1.0, 1.6, 2.6, 4.5]
+    up2 = np.geomspace(1e-5, 0.6, 12)
+    tab2 = {str(w): [2.0 * (p * 10 ** (5 - w)) / (1 + p * 10 ** (5 - w)) + w * 1.5 / (1 + math.exp(-(math.log10(p) + 5 - w) * 3)) for p in up2] for w in uw2}
+    pd.DataFrame(tab2, index=up2).to_csv(user_path2)
+
+    from scipy import interpolate as _ip
+    _own = {}
+
+    def own_kernel(path):
+        """the kernel of THIS file, built here (same construction as the library: a zero row in front, cubic interpolation per column)"""
+        if path not in _own:
+            rk = pd.read_csv(path, index_col=0)
+            rk = pd.concat([pd.DataFrame([[0 for _ in rk.columns]], index=[0], columns=rk.columns), rk])
+            _own[path] = {c: _ip.interp1d(rk[c].index, rk[c].values, kind="cubic") for c in rk}
+        return _own[path]
+
     def certificate(path, pressure, loading, order, weights, sig, detail, widths0):
         try:
             w, dist, cum, kl = pk.psd_dft_kernel_fit(np.array(pressure), np.array(loading), path, bspline_order=order)
@@ -70,9 +89,12 @@ def run(ck):
         if len(kl) != len(pressure):
             ck.fail_case({**sig, "clause": "fitted isotherm has another length than the data"}, detail)
             return None
-        kernel = pk._load_kernel(path)
+        kernel = own_kernel(path)
         kpts = np.asarray([kernel[size](np.array(pressure)) for size in kernel])
         if order == 0:
+            if len(w) != len(widths0) or not np.allclose(w, widths0):
+                ck.fail_case({**sig, "clause": "reported pore widths are not those of the kernel file"}, {**detail, "got": w[:6].tolist(), "expected": list(widths0[:6])})
+                return None
             # reported distribution x width increments are the contributions: their kernel-weighted sum is the reported fitted isotherm
             x = dist * np.ediff1d(widths0, to_begin=widths0[0])
             e = float(np.max(np.abs(kpts.T @ x - kl)) / max(float(np.max(np.abs(kl))), 1e-300))
@@ -95,9 +117,12 @@ def run(ck):
     try:
         for i in range(N):
             user = i % 3 == 2
-            path, widths0, plo, phi = (user_path, np.array(uw), up[0], up[-1]) if user else (shipped, widths_shipped, kp[0], kp[-1])
+            if user and i % 2 == 1:
+                path, widths0, plo, phi = user_path2, np.array(uw2), up2[0], up2[-1]
+            else:
+                path, widths0, plo, phi = (user_path, np.array(uw), up[0], up[-1]) if user else (shipped, widths_shipped, kp[0], kp[-1])
             nw = len(widths0)
-            kernel = pk._load_kernel(path)
+            kernel = own_kernel(path)
             sparse = rng.random() < 0.6
             wts = np.zeros(nw)
             for j in (rng.sample(range(nw), rng.randint(1, 4)) if sparse else range(nw)):
@@ -122,7 +147,7 @@ def run(ck):
         for i in range(max(6, N // 2)):
             npts = rng.choice([30, 50])
             pressure = np.array(sorted({logu(rng, kp[0] * 1.01, kp[-1] * 0.99) for _ in range(npts)}))
-            kernel = pk._load_kernel(shipped)
+            kernel = own_kernel(shipped)
             wts = np.zeros(len(widths_shipped))
             for j in rng.sample(range(len(widths_shipped)), 3):
                 wts[j] = rng.uniform(0.1, 1)
@@ -165,8 +190,23 @@ def run(ck):
                 pass
             except Exception as e:  # noqa
                 ck.fail_case({"clause": "pressure outside the kernel range gives a non-pyGAPS error", "error": type(e).__name__}, {"pressure": pressure.tolist(), "error": repr(e)[:300]})
+        for path_, top in ((user_path, up[-1]), (user_path2, up2[-1])):
+            pressure = np.array([top * 0.1, top * 0.5, top * 0.9, top * 1.2])
+            ck.count(("outside-user", path_), bucket="outside kernel range (user kernels with the same file name)")
+            try:
+                pk.psd_dft_kernel_fit(pressure, np.linspace(1, 2, 4), path_, bspline_order=0)
+                ck.fail_case({"clause": "pressure outside the kernel range accepted", "kernel": "user"}, {"pressure": pressure.tolist(), "kernel_top": float(top)})
+            except CalculationError:
+                pass
+            except Exception as e:  # noqa
+                ck.fail_case({"clause": "pressure outside the kernel range gives a non-pyGAPS error", "error": type(e).__name__}, {"pressure": pressure.tolist(), "error": repr(e)[:300]})
     finally:
         pk._LOADED.pop(user_path, None)
+        pk._LOADED.pop(user_path2, None)
+        pk._LOADED.pop(os.path.basename(user_path), None)
+        for f in os.listdir(tmpdir2):
+            os.remove(os.path.join(tmpdir2, f))
+        os.rmdir(tmpdir2)
         for f in os.listdir(tmpdir):
             os.remove(os.path.join(tmpdir, f))
         os.rmdir(tmpdir)
